@@ -115,9 +115,14 @@ func mutateText(s string) string {
 			b = b[1:]
 		}
 		return string(b)
-	case 5: // another alphabet character at a random place
+	case 5: // another alphabet character at a random place (of a very long text: near its end - the definition's number
+		// conversion is schoolbook arithmetic, and a digit in the middle of thousands of '1's makes all of them digits)
 		if len(b) > 0 {
-			b[rng.Intn(len(b))] = b58Alphabet[rng.Intn(58)]
+			i := rng.Intn(len(b))
+			if len(b) > 300 {
+				i = len(b) - 1 - rng.Intn(8)
+			}
+			b[i] = b58Alphabet[rng.Intn(58)]
 		}
 		return string(b)
 	case 6:
